@@ -1,7 +1,7 @@
 import ast
 from typing import Tuple, List
 
-from rope.base import pyobjects, worder
+from rope.base import exceptions, pyobjects, worder
 from rope.base.builtins import Lambda
 from rope.base.codeanalyze import SourceLinesAdapter
 
@@ -295,7 +295,10 @@ class _FunctionCallParser(_BaseFunctionParser):
         kwargs = []
         for kw in self.ast.keywords:
             kw_value = self._get_source_range(kw.value)
-            assert kw.arg
+            if kw.arg is None:
+                raise exceptions.RefactoringError(
+                    "Calls that pass ``**mapping`` are not supported: <%s>" % self.call
+                )
             kwargs.append((kw.arg, kw_value))
         if self.is_called_as_a_method():
             instance = self.call[: self.call.rindex(".", 0, self.first_parens)]
